@@ -27,6 +27,9 @@ type c20reg struct {
 	table string
 	kind  string // key filter conditional update
 	text  string
+	// via (requests only) selects how a conditional request is sent: "" = PutItem on the stored key,
+	// "put-absent", "delete-stored", "delete-absent"
+	via string
 }
 
 var c20Kinds = []string{"key", "filter", "conditional", "update"}
@@ -96,7 +99,16 @@ func c20V2() c20client {
 				}
 				return fmt.Sprintf("items=%d", len(o.Items)), nil
 			case "conditional":
-				_, err := c.PutItem(ctx, &ddb2.PutItemInput{TableName: aws2.String(r.table), Item: map[string]types2.AttributeValue{"h": S("k"), "a": N("1"), "b": N("1")}, ConditionExpression: aws2.String(r.text), ExpressionAttributeValues: vals(r.text)})
+				hk := "k"
+				if strings.HasSuffix(r.via, "-absent") {
+					hk = "nobody"
+				}
+				var err error
+				if strings.HasPrefix(r.via, "delete") {
+					_, err = c.DeleteItem(ctx, &ddb2.DeleteItemInput{TableName: aws2.String(r.table), Key: map[string]types2.AttributeValue{"h": S(hk)}, ConditionExpression: aws2.String(r.text), ExpressionAttributeValues: vals(r.text)})
+				} else {
+					_, err = c.PutItem(ctx, &ddb2.PutItemInput{TableName: aws2.String(r.table), Item: map[string]types2.AttributeValue{"h": S(hk), "a": N("1"), "b": N("1")}, ConditionExpression: aws2.String(r.text), ExpressionAttributeValues: vals(r.text)})
+				}
 				var ccf *types2.ConditionalCheckFailedException
 				if errors.As(err, &ccf) {
 					return "items=0", nil
@@ -171,7 +183,16 @@ func c20V1() c20client {
 				}
 				return fmt.Sprintf("items=%d", len(o.Items)), nil
 			case "conditional":
-				_, err := c.PutItem(&ddb1.PutItemInput{TableName: aws1.String(r.table), Item: map[string]*ddb1.AttributeValue{"h": S("k"), "a": N("1"), "b": N("1")}, ConditionExpression: aws1.String(r.text), ExpressionAttributeValues: vals(r.text)})
+				hk := "k"
+				if strings.HasSuffix(r.via, "-absent") {
+					hk = "nobody"
+				}
+				var err error
+				if strings.HasPrefix(r.via, "delete") {
+					_, err = c.DeleteItem(&ddb1.DeleteItemInput{TableName: aws1.String(r.table), Key: map[string]*ddb1.AttributeValue{"h": S(hk)}, ConditionExpression: aws1.String(r.text), ExpressionAttributeValues: vals(r.text)})
+				} else {
+					_, err = c.PutItem(&ddb1.PutItemInput{TableName: aws1.String(r.table), Item: map[string]*ddb1.AttributeValue{"h": S(hk), "a": N("1"), "b": N("1")}, ConditionExpression: aws1.String(r.text), ExpressionAttributeValues: vals(r.text)})
+				}
 				if err != nil {
 					var ce interface{ Code() string }
 					if errors.As(err, &ce) && ce.Code() == "ConditionalCheckFailedException" {
@@ -241,7 +262,19 @@ func C20(run *ev.Run, tier string) map[string]interface{} {
 	for _, t := range tables {
 		for _, k := range c20Kinds {
 			for _, x := range c20Texts(k) {
-				regs = append(regs, c20reg{t, k, x})
+				regs = append(regs, c20reg{table: t, kind: k, text: x})
+			}
+		}
+	}
+	// requests: every registration text of every kind and table; write conditions also through
+	// PutItem on an absent key and DeleteItem on a stored and on an absent key
+	requests := append([]c20reg{}, regs...)
+	for _, r := range regs {
+		if r.kind == "conditional" {
+			for _, via := range []string{"put-absent", "delete-stored", "delete-absent"} {
+				q := r
+				q.via = via
+				requests = append(requests, q)
 			}
 		}
 	}
@@ -280,7 +313,7 @@ func C20(run *ev.Run, tier string) map[string]interface{} {
 		go func() {
 			defer wg.Done()
 			for j := range ch {
-				for _, req := range regs {
+				for _, req := range requests {
 					ev.Breadcrumb(fmt.Sprintf("C20 %s cfg=%s set=%v request=%v", j.cl.name, j.cfg, j.set, req))
 					// fresh client per request: requests mutate the item
 					var log []int
@@ -424,8 +457,12 @@ func C20(run *ev.Run, tier string) map[string]interface{} {
 						continue
 					}
 					wantOut := c20Builtin(req)
+					if strings.HasSuffix(req.via, "-absent") {
+						wantOut = "items=0" // every text of the menu is false of an empty item
+					}
 					if want >= 0 {
-						if wantOut == "items=1" {
+						// the registered matcher answers the opposite of the built-in answer on the stored item
+						if c20Builtin(j.set[want]) == "items=1" {
 							wantOut = "items=0"
 						} else {
 							wantOut = "items=1"
@@ -453,11 +490,11 @@ func C20(run *ev.Run, tier string) map[string]interface{} {
 	wg.Wait()
 	return map[string]interface{}{
 		"evaluations":           evals,
-		"distinct_nontrivial":   int64(len(sets)) * int64(len(configs)) * int64(len(regs)),
+		"distinct_nontrivial":   int64(len(sets)) * int64(len(configs)) * int64(len(requests)),
 		"registration_sets":     len(sets),
-		"requests_per_set":      len(regs),
+		"requests_per_set":      len(requests),
 		"callbacks_fired":       fired,
-		"rule":                  "every set of up to two registrations from 2 tables x {key, filter, conditional, update} x 5 expression texts (two equal up to whitespace, one a permutation of the characters of the first, two different), each with a callback that records its identity and answers the opposite of the built-in interpreter; for each set every request (table, kind, text) on a fresh client; six configurations (native interpreter off; SetInterpreter/Activate before or after CreateTable, in both orders; never activated; registrations added after everything); both SDK clients; a case is distinct by (configuration, registration set, request)",
+		"rule":                  "(write conditions are requested through PutItem and DeleteItem, on a stored and on an absent key) every set of up to two registrations from 2 tables x {key, filter, conditional, update} x 5 expression texts (two equal up to whitespace, one a permutation of the characters of the first, two different), each with a callback that records its identity and answers the opposite of the built-in interpreter; for each set every request (table, kind, text) on a fresh client; six configurations (native interpreter off; SetInterpreter/Activate before or after CreateTable, in both orders; never activated; registrations added after everything); both SDK clients; a case is distinct by (configuration, registration set, request)",
 		"oracle":                "the callback that fires is the (last) one registered for exactly that table, kind and whitespace-normalised text and its verdict or mutation is what the operation uses; with no matching registration conditions fall back to the built-in result and updates fail with the unsupported-feature error leaving the item unchanged; nothing fires when the native interpreter is not active",
 		"samples":               []interface{}{"registrations [{tb1 filter 'a = :v'}] request {tb1 filter ':v = a'}", "registrations [{tb1 update 'SET a = :v'}] request {tb1 update '  SET  a   =  :v '}"},
 		"exhaustive":            true,
